@@ -1,6 +1,6 @@
 package main
 
-// C05 generators, property oracles and known-finding witnesses (see c05.go).
+// C05 generators and property oracles (see c05.go).
 
 import (
 	"fmt"
@@ -72,12 +72,21 @@ func c05Inc(s string) (string, bool) { // s + 1 as an n-bit number
 
 var c05Shapes = []string{"single", "random", "prefix", "runs", "dense", "minmax", "lastbit"}
 
+// the 288-bit key type is tlb.AddressWithWorkchain: an int8 workchain written as
+// int32 followed by 32 bytes, so the first 24 bits repeat bit 24 (sign extension)
+func c05Canon(n int, k string) string {
+	if n != 288 || len(k) != 288 {
+		return k
+	}
+	return strings.Repeat(k[24:25], 24) + k[24:]
+}
+
 // a set of at most size distinct keys of width n of the given shape
 func c05KeySet(r *prng.R, n, size int, shape string) []string {
 	set := map[string]bool{}
 	add := func(k string) {
 		if len(k) == n {
-			set[k] = true
+			set[c05Canon(n, k)] = true
 		}
 	}
 	switch shape {
@@ -181,6 +190,8 @@ func c05WidthClass(n int, signed bool) string {
 		return fmt.Sprintf("%s%d", s, n)
 	case n <= 96:
 		return "b80-96"
+	case n == 288:
+		return "a288"
 	}
 	return fmt.Sprintf("b%d", n)
 }
@@ -197,6 +208,19 @@ func c05EqualKVs(a, b []c05KV) bool {
 	return true
 }
 
+// coarse key family, for classes that already have another dimension
+func c05Family(kt c05KT) string {
+	switch {
+	case kt.signed:
+		return "int"
+	case kt.n <= 64:
+		return "uint"
+	case kt.n == 288:
+		return "addr"
+	}
+	return "bytes"
+}
+
 type c05KT struct {
 	n      int
 	signed bool
@@ -205,7 +229,7 @@ type c05KT struct {
 var c05KeyTypes = []c05KT{
 	{1, false}, {2, false}, {7, false}, {8, false}, {9, false}, {15, false}, {16, false}, {32, false}, {64, false},
 	{1, true}, {2, true}, {7, true}, {8, true}, {9, true}, {15, true}, {16, true}, {32, true}, {64, true},
-	{80, false}, {96, false}, {256, false}, {512, false},
+	{80, false}, {96, false}, {256, false}, {288, false}, {512, false},
 }
 
 func c05PickSize(r *prng.R, max int) int {
@@ -218,16 +242,22 @@ func c05PickSize(r *prng.R, max int) int {
 	return r.Intn(max + 1)
 }
 
+// does a bit-sorted key list of a signed type hold both signs
+func c05Mixed(kt c05KT, sorted []c05KV) bool {
+	return kt.signed && len(sorted) > 0 && sorted[0].k[0] != sorted[len(sorted)-1].k[0]
+}
+
 func genC05(c *Ctx) {
 	r := c.R
 	maxSize := c.Scale(60, 400)
 
-	// --- known findings: replayed on the implementation, not part of the compared stream
-	c05Witnesses(c)
+	// --- 0. the inputs that failed before the repairs in /repo (also in corpus/C05)
+	c05Regressions(c)
+	c05KnownFindings(c)
 
 	// --- 1. Put in random order + Marshal; oracles: decode(encode) = sorted input,
 	//        a second insertion order gives the same cell hash
-	nEnc := c.Scale(70, 3000)
+	nEnc := c.Scale(160, 1200)
 	for _, kt := range c05KeyTypes {
 		im := c05Impls[c05Name(kt.n, kt.signed)]
 		for i := 0; i < nEnc; i++ {
@@ -283,14 +313,85 @@ func genC05(c *Ctx) {
 		}
 	}
 
+	// --- 1b. NewHashmap(E)(keys, values) with the slices in ANY order: the encoding
+	//         depends only on the mapping; duplicates are rejected
+	nRaw := c.Scale(70, 500)
+	for _, kt := range c05KeyTypes {
+		im := c05Impls[c05Name(kt.n, kt.signed)]
+		for i := 0; i < nRaw; i++ {
+			shape := c05Shapes[r.Intn(len(c05Shapes))]
+			var kvs []c05KV
+			for _, k := range c05KeySet(r, kt.n, 1+c05PickSize(r, maxSize-1), shape) {
+				kvs = append(kvs, c05KV{k, uint32(r.U64())})
+			}
+			sorted := c05SortedDistinct(kvs)
+			var order []c05KV
+			ord := ""
+			switch r.Intn(6) {
+			case 0:
+				order, ord = append(order, sorted...), "ascending"
+			case 1:
+				ord = "descending"
+				for j := len(sorted) - 1; j >= 0; j-- {
+					order = append(order, sorted[j])
+				}
+			case 2: // the order Put would produce for a signed type: keys starting with 1 first
+				ord = "negatives-first"
+				for _, kv := range sorted {
+					if kv.k[0] == '1' {
+						order = append(order, kv)
+					}
+				}
+				for _, kv := range sorted {
+					if kv.k[0] == '0' {
+						order = append(order, kv)
+					}
+				}
+			default:
+				order, ord = c05Shuffle(r, sorted), "shuffled"
+			}
+			dup := r.Chance(8)
+			if dup {
+				ord = "duplicate"
+				d := order[r.Intn(len(order))]
+				if r.Bool() {
+					d.v = uint32(r.U64())
+				}
+				p := r.Intn(len(order) + 1)
+				order = append(order[:p:p], append([]c05KV{d}, order[p:]...)...)
+			}
+			e := !r.Chance(25)
+			in := sx.L(sx.Nat(kt.n), sx.B(kt.signed), sx.B(e), c05ItemsSx(order))
+			out := c.Emit("c05.raw", in, fmt.Sprintf("%s|%s", c05Family(kt), ord))
+			if dup {
+				if !out.IsA("err") {
+					dec := safeExec("c05.decode", sx.L(sx.Nat(kt.n), sx.B(e), out))
+					c.Fail("c05.raw", in, "duplicate-key", "a key slice holding the same key twice marshals to a dictionary that decodes to "+trunc(dec.String(), 200))
+				}
+				continue
+			}
+			if out.IsA("err") || out.IsA("panic") {
+				c.Fail("c05.raw", in, "raw-encode-fails", "NewHashmap with distinct keys ("+ord+") does not marshal")
+				continue
+			}
+			dec := safeExec("c05.decode", sx.L(sx.Nat(kt.n), sx.B(e), out))
+			if dec.String() != c05ItemsSx(sorted).String() {
+				c.Fail("c05.raw", in, "raw-roundtrip", "NewHashmap with distinct keys ("+ord+") marshals to a dictionary that decodes to "+trunc(dec.String(), 300))
+			}
+			viaPut, err := im.encode(e, c05Shuffle(r, sorted))
+			if err != nil || c05CellSx(viaPut).String() != out.String() {
+				c.Fail("c05.raw", in, "order-dependent", "the same mapping built with NewHashmap ("+ord+") and with Put marshals to different cells")
+			}
+		}
+	}
+
 	// --- 2. dictionaries serialised by "another implementation": every label form
-	nDec := c.Scale(16, 600)
+	nDec := c.Scale(30, 200)
 	modes := []string{"go", "short", "long", "same", "random"}
 	for _, kt := range c05KeyTypes {
 		if kt.signed {
 			continue // decoding does not depend on Compare; covered by the ops stream
 		}
-		im := c05Impls[c05Name(kt.n, false)]
 		for _, mode := range modes {
 			for i := 0; i < nDec; i++ {
 				shape := c05Shapes[r.Intn(len(c05Shapes))]
@@ -323,7 +424,6 @@ func genC05(c *Ctx) {
 				if out.String() != c05ItemsSx(kvs).String() {
 					c.Fail("c05.decode", in, "decode-"+mode, fmt.Sprintf("a valid dictionary (label forms: %s) decodes to %s", mode, trunc(out.String(), 200)))
 				}
-				_ = im
 			}
 		}
 	}
@@ -334,11 +434,16 @@ func genC05(c *Ctx) {
 	c.Emit("c05.decode", sx.L(sx.Nat(8), sx.B(false), (&c05Cell{bits: ""}).sx()), "empty")
 
 	// --- 3. malformed dictionaries: both sides must agree on reject / result
-	nMal := c.Scale(2000, 60000)
+	nMal := c.Scale(5000, 40000)
 	for i := 0; i < nMal; i++ {
 		kt := c05KeyTypes[r.Intn(len(c05KeyTypes))]
 		if kt.signed {
 			kt.signed = false
+		}
+		if kt.n == 288 {
+			// a mutated key need not be a sign-extended int8 workchain: the key type
+			// truncates it, which is the key codec's business (C03), not the dictionary's
+			kt.n = 256
 		}
 		var kvs []c05KV
 		for _, k := range c05KeySet(r, kt.n, 1+r.Intn(12), c05Shapes[r.Intn(len(c05Shapes))]) {
@@ -361,8 +466,9 @@ func genC05(c *Ctx) {
 		c.Emit("c05.decode", sx.L(sx.Nat(kt.n), sx.B(true), root.sx()), "malformed|"+mut)
 	}
 
-	// --- 4. Get / Put on a decoded dictionary
-	nOps := c.Scale(40, 1500)
+	// --- 4. Get / Put on a decoded dictionary (every key type, also new keys put into a
+	//        signed-key dictionary that holds both signs), then Marshal and Unmarshal
+	nOps := c.Scale(120, 800)
 	for _, kt := range c05KeyTypes {
 		for i := 0; i < nOps; i++ {
 			shape := c05Shapes[r.Intn(len(c05Shapes))]
@@ -381,22 +487,17 @@ func genC05(c *Ctx) {
 				}
 				root = &c05Cell{bits: "1", refs: []*c05Cell{pc}}
 			}
-			// a decoded signed-key dictionary holding both signs is not sorted by
-			// Compare; inserting a NEW key into it is the known finding
-			// signed-put-after-decode and is kept out of this stream
-			mixed := false
-			if kt.signed && len(kvs) > 0 {
-				mixed = kvs[0].k[0] != kvs[len(kvs)-1].k[0]
-			}
+			mixed := c05Mixed(kt, kvs)
 			ref := map[string]uint32{}
 			for _, kv := range kvs {
 				ref[kv.k] = kv.v
 			}
 			var ops []sx.V
 			var wants []string
+			newKeys := 0
 			for j, nops := 0, 1+r.Intn(10); j < nops; j++ {
 				var k string
-				present := len(kvs) > 0 && r.Chance(55)
+				present := len(kvs) > 0 && r.Chance(50)
 				if present {
 					k = kvs[r.Intn(len(kvs))].k
 				} else {
@@ -406,11 +507,10 @@ func genC05(c *Ctx) {
 						b := []byte(kvs[r.Intn(len(kvs))].k)
 						p := r.Intn(len(b))
 						b[p] ^= 1
-						k = string(b)
+						k = c05Canon(kt.n, string(b))
 					}
 				}
-				_, have := ref[k]
-				if r.Bool() || (mixed && !have) {
+				if r.Chance(45) {
 					ops = append(ops, sx.L(sx.A("get"), sx.Bits(k)))
 					if v, ok := ref[k]; ok {
 						wants = append(wants, sx.L(sx.N(uint64(v))).String())
@@ -419,15 +519,21 @@ func genC05(c *Ctx) {
 					}
 				} else {
 					v := uint32(r.U64())
+					if _, have := ref[k]; !have {
+						newKeys++
+					}
 					ops = append(ops, sx.L(sx.A("put"), sx.Bits(k), sx.N(uint64(v))))
 					ref[k] = v
 					wants = append(wants, "'ok")
 				}
 			}
 			in := sx.L(sx.Nat(kt.n), sx.B(kt.signed), root.sx(), sx.L(ops...))
-			mx := "sorted"
+			mx := "one-sign"
 			if mixed {
 				mx = "mixed-signs"
+			}
+			if newKeys > 0 {
+				mx += "+new-keys"
 			}
 			out := c.Emit("c05.ops", in, fmt.Sprintf("%s|%s", c05WidthClass(kt.n, kt.signed), mx))
 			// oracle: answers agree with the reference map; the re-encoded
@@ -453,8 +559,80 @@ func genC05(c *Ctx) {
 			}
 			dec := safeExec("c05.decode", sx.L(sx.Nat(kt.n), sx.B(true), cellSx))
 			if dec.String() != c05ItemsSx(final).String() {
-				c.Fail("c05.ops", in, "reencode", "dictionary re-encoded after Get/Put does not decode to the updated mapping")
+				key := "reencode"
+				if mixed && newKeys > 0 {
+					key = "signed-put-after-decode"
+				}
+				c.Fail("c05.ops", in, key, "dictionary re-encoded after Get/Put does not decode to the updated mapping")
 			}
+		}
+	}
+
+	// --- 5. AddressWithWorkchain keys at the value level (Put uses its Compare)
+	nAddr := c.Scale(300, 3000)
+	for i := 0; i < nAddr; i++ {
+		size := c05PickSize(r, 24)
+		if i == 0 {
+			size = 0
+		}
+		type akv struct {
+			wc   int8
+			addr [32]byte
+			v    uint32
+		}
+		var items []akv
+		var base [32]byte
+		for j := range base {
+			base[j] = byte(r.U64())
+		}
+		family := r.Intn(3)
+		for j := 0; j < size; j++ {
+			var a akv
+			a.wc = []int8{-1, 0, -1, 0, -128, 127, 1, int8(r.U64())}[r.Intn(8)]
+			switch family {
+			case 0:
+				for k := range a.addr {
+					a.addr[k] = byte(r.U64())
+				}
+			case 1: // shared prefix, differ in the last bytes
+				a.addr = base
+				a.addr[31] = byte(r.U64())
+				a.addr[30] = byte(r.Intn(2))
+			default: // runs
+				for k := range a.addr {
+					a.addr[k] = []byte{0, 0xff}[(k/(1+j%7))%2]
+				}
+				a.addr[r.Intn(32)] ^= byte(1 << uint(r.Intn(8)))
+			}
+			a.v = uint32(r.U64())
+			items = append(items, a)
+		}
+		if len(items) > 1 && r.Chance(20) { // same key twice: last value wins
+			d := items[r.Intn(len(items))]
+			d.v = uint32(r.U64())
+			items = append(items, d)
+		}
+		var ins []sx.V
+		final := map[string]akv{}
+		for _, a := range items {
+			ins = append(ins, sx.L(sx.Z(int64(a.wc)), sx.Bytes(a.addr[:]), sx.N(uint64(a.v))))
+			final[fmt.Sprintf("%08x%x", uint32(a.wc), a.addr)] = a // uint32(int8): sign extension
+		}
+		var ks []string
+		for k := range final {
+			ks = append(ks, k)
+		}
+		sort.Strings(ks) // = bit order of int32 workchain ++ address
+		var wants []sx.V
+		for _, k := range ks {
+			a := final[k]
+			wants = append(wants, sx.L(sx.Z(int64(a.wc)), sx.Bytes(a.addr[:]), sx.N(uint64(a.v))))
+		}
+		in := sx.L(sx.L(ins...))
+		fam := []string{"random", "prefix", "runs"}[family]
+		out := c.Emit("c05.addr", in, fmt.Sprintf("a288-values|%s", fam))
+		if !(out.K == sx.KL && len(out.List) == 2 && out.List[1].String() == sx.L(wants...).String()) {
+			c.Fail("c05.addr", in, "addr-roundtrip", "HashmapE keyed by tlb.AddressWithWorkchain: Put, Marshal, Unmarshal gives "+trunc(out.String(), 200)+" instead of the inserted pairs in key order")
 		}
 	}
 }
@@ -553,9 +731,12 @@ func c05MutateCell(r *prng.R, c *c05Cell, tag *string) bool {
 	return true
 }
 
-// known findings, replayed against the implementation
-func c05Witnesses(c *Ctx) {
-	// every key type must marshal to exactly FixedSize() bits (what F19 violates)
+// The inputs on which the property failed before the two repairs in /repo
+// (fix: AddressWithWorkchain.MarshalTLB; fix: Hashmap.MarshalTLB sorts by key
+// bits), as ordinary compared cases with their oracles, plus the width check of
+// every key type.  The same three cases are in corpus/C05/regressions.txt.
+func c05Regressions(c *Ctx) {
+	// every key type must marshal to exactly FixedSize() bits
 	var names []string
 	for name := range c05Impls {
 		names = append(names, name)
@@ -578,24 +759,25 @@ func c05Witnesses(c *Ctx) {
 				fmt.Sprintf("key type %s: FixedSize() = %d but the key is encoded in %d bits", name, im.n, got))
 		}
 	}
-	// F19: AddressWithWorkchain has FixedSize 288 but encodes as 264 bits
+	// AddressWithWorkchain: FixedSize 288, used to be written as int8 + 32 bytes = 264 bits
 	addr := make([]byte, 32)
 	addr[31] = 5
-	in := sx.L(sx.L(sx.L(sx.Z(-1), sx.Bytes(addr), sx.N(7))))
-	out := safeExec("c05.addr", in)
-	if !(out.K == sx.KL && len(out.List) == 2 && out.List[1].K == sx.KL && len(out.List[1].List) == 1) {
+	item := sx.L(sx.Z(-1), sx.Bytes(addr), sx.N(7))
+	in := sx.L(sx.L(item))
+	out := c.Emit("c05.addr", in, "regression|addr-key")
+	if !(out.K == sx.KL && len(out.List) == 2 && out.List[1].String() == sx.L(item).String()) {
 		c.Fail("c05.addr", in, "addr-key-264-bits",
-			"a HashmapE keyed by tlb.AddressWithWorkchain (FixedSize 288, encoded as int8+256 = 264 bits) marshals without error but its own output does not decode: "+trunc(out.String(), 120))
+			"a HashmapE keyed by tlb.AddressWithWorkchain (FixedSize 288) does not decode from its own encoding: "+trunc(out.String(), 120))
 	}
-	// decode a signed-key dictionary holding both signs, Put a new negative key,
-	// Marshal: the key slice is no longer ordered the way encodeMap assumes
-	kvs := []c05KV{{"00000001", 10}, {"11111101", 30}} // Int8: 1, -3 (bit order)
+	// decode an Int8 dictionary holding 1 and -3 (bit order), Put(-64) (numeric order puts
+	// it first), Marshal: the key slice is then not in bit order
+	kvs := []c05KV{{"00000001", 10}, {"11111101", 30}}
 	t := c05Build(kvs)
 	t.chooseForms(c.R.Fork(0), "go")
 	pc, _ := t.cells(8)
 	root := &c05Cell{bits: "1", refs: []*c05Cell{pc}}
-	in2 := sx.L(sx.Nat(8), sx.B(true), root.sx(), sx.L(sx.L(sx.A("put"), sx.Bits("11000000"), sx.N(20)))) // Put(-64)
-	out2 := safeExec("c05.ops", in2)
+	in2 := sx.L(sx.Nat(8), sx.B(true), root.sx(), sx.L(sx.L(sx.A("put"), sx.Bits("11000000"), sx.N(20))))
+	out2 := c.Emit("c05.ops", in2, "regression|signed-put")
 	want := c05ItemsSx([]c05KV{{"00000001", 10}, {"11000000", 20}, {"11111101", 30}}).String()
 	bad := true
 	if out2.K == sx.KL && len(out2.List) == 3 && !out2.List[2].IsA("err") {
@@ -608,5 +790,32 @@ func c05Witnesses(c *Ctx) {
 	if bad {
 		c.Fail("c05.ops", in2, "signed-put-after-decode",
 			"Put of a new key into a decoded IntN-keyed dictionary that holds negative and non-negative keys, then Marshal: "+trunc(want, 300))
+	}
+	// NewHashmapE with the Uint8 keys 1, 200, 2 in that order
+	raw := []c05KV{{"00000001", 1}, {"11001000", 200}, {"00000010", 2}}
+	in3 := sx.L(sx.Nat(8), sx.B(false), sx.B(true), c05ItemsSx(raw))
+	out3 := c.Emit("c05.raw", in3, "regression|unsorted-slice")
+	dec3 := safeExec("c05.decode", sx.L(sx.Nat(8), sx.B(true), out3))
+	if dec3.String() != c05ItemsSx(c05SortedDistinct(raw)).String() {
+		c.Fail("c05.raw", in3, "unsorted-slice", "NewHashmapE with keys 1, 200, 2 marshals to a dictionary that decodes to "+trunc(dec3.String(), 200))
+	}
+}
+
+// Known finding addr-workchain-int8 (C05_address_workchain_int8_refuted): replayed on
+// the implementation only, never part of the compared stream.  A valid one-entry
+// dictionary whose 288-bit key has workchain 256 (an int32, as in the TON schema)
+// decodes to a key with workchain 0 because AddressWithWorkchain.Workchain is int8.
+func c05KnownFindings(c *Ctx) {
+	key := strings.Repeat("0", 23) + "1" + strings.Repeat("0", 8) + strings.Repeat("0", 256)
+	kvs := []c05KV{{key, 7}}
+	t := c05Build(kvs)
+	t.chooseForms(c.R.Fork(1), "go")
+	pc, _ := t.cells(288)
+	root := &c05Cell{bits: "1", refs: []*c05Cell{pc}}
+	in := sx.L(sx.Nat(288), sx.B(true), root.sx())
+	out := safeExec("c05.decode", in)
+	if out.String() != c05ItemsSx(kvs).String() {
+		c.Fail("c05.decode", in, "addr-workchain-int8",
+			"tlb.AddressWithWorkchain.Workchain is int8 but the dictionary key carries an int32 workchain: a valid dictionary key with workchain 256 decodes to a key with workchain 0 (distinct keys can collapse)")
 	}
 }
